@@ -360,6 +360,12 @@ func (s *grpcServer) Write(srv bytestream.ByteStream_WriteServer) error {
 	var resp bytestream.WriteResponse
 	pr, pw := io.Pipe()
 
+	// Whatever way this handler returns, nobody reads from the pipe any more:
+	// release a receive goroutine that is still blocked writing to it (e.g.
+	// after Put failed on invalid compressed data while the client keeps
+	// sending).
+	defer func() { _ = pr.Close() }()
+
 	putResult := make(chan error, 1)
 	recvResult := make(chan error, 1)
 	resourceNameChan := make(chan string, 1)
